@@ -374,6 +374,22 @@ Theorem C10_equiv_ipv4_whole_url_partial :
 Proof. exact parse_url_ipv4. Qed.
 Print Assumptions C10_equiv_ipv4_whole_url_partial.
 
+(* IPv6 literals "[x]" and "[x']" that the address library (ipaddress.IPv6Address(..).compressed, here the oracle ipv6_o) maps to
+   the same text - upper- or lower-case hex, leading zeros, "::" placement, embedded IPv4 *)
+Theorem C10_equiv_ipv6_whole_url_partial :
+  forall enc lower_o idna_o ipv6_o int_o unq_o (sch sc : str) (dport : N) (u : option str) (x x' pp R : str),
+    scheme_text lower_o sch sc dport ->
+    (forall y, u = Some y -> memb 64 y = false /\ memb 47 y = false /\ memb 63 y = false /\ memb 35 y = false) ->
+    ipv6_inner x -> ipv6_inner x' -> ipv6_o x = ipv6_o x' -> port_text pp -> rest_ok R ->
+    let U := match u with Some y => y ++ [64] | None => [] end in
+    let rem := [47; 47] ++ (U ++ (91 :: x ++ [93]) ++ pp) ++ R in
+    let rem' := [47; 47] ++ (U ++ (91 :: x' ++ [93]) ++ pp) ++ R in
+    plain_text (sch ++ 58 :: rem) -> plain_text (sch ++ 58 :: rem') ->
+    same_url enc (parse enc lower_o idna_o ipv6_o int_o unq_o (sch ++ 58 :: rem))
+                 (parse enc lower_o idna_o ipv6_o int_o unq_o (sch ++ 58 :: rem')).
+Proof. exact parse_url_ipv6. Qed.
+Print Assumptions C10_equiv_ipv6_whole_url_partial.
+
 (* non-vacuity: "http://0300.0250.0.01:8080/x" and "http://0xC0A80001:8080/x" both give http://192.168.0.1:8080/x *)
 Example C10_ipv4_whole_url_nonvacuous :
   let io := fun (_ : N) (_ : str) => @None Z in
@@ -460,13 +476,13 @@ Example C10_escape_case_whole_url_nonvacuous :
 Proof. cbv zeta. vm_compute. split; reflexivity. Qed.
 
 (* THE LAST CLAUSE AS ONE THEOREM.  [respell] is the closure (reflexive, symmetric, transitive: any number of steps, in any
-   order and direction) of the eight proved re-spelling steps of a whole URL text [respell1] - letter case of the scheme, an
-   explicit default port, letter case of the host name, another IPv4 notation of the same address, dropped path segments,
+   order and direction) of the nine proved re-spelling steps of a whole URL text [respell1] - letter case of the scheme, an
+   explicit default port, letter case of the host name, another IPv4 or IPv6 notation of the same address, dropped path segments,
    the letter case of the hex digits of escapes in the path and in query and fragment, a dropped fragment, each with the side conditions of
    its theorem above.  Related texts are both rejected with the same
    kind, or both parse, to URLs that are both network URLs or both not, and network URLs have the same normalized form,
-   scheme, host, port, path and query.  (Outside the closure: IPv6 re-spelling - a library oracle - and re-spelled user-info;
-   those are compared on the implementation.) *)
+   scheme, host, port, path and query.  (Outside the closure: re-spelled user-info; that is compared on the implementation.
+   The IPv6 step is relative to the address library: two literals are related when the library gives them one compressed form.) *)
 Theorem C10_equiv_spellings :
   forall enc lower_o idna_o ipv6_o int_o unq_o (s s' : str),
     respell enc lower_o idna_o ipv6_o int_o s s' ->
